@@ -6,6 +6,8 @@
 //!   M index mut         the index-th repository input (.rssl/.hlsl under tests/, hlsl/tests, msl/tests and the corpus
 //!                       entry points, includes from disk); mut as above
 //!   D kind n            a construct nested / repeated n times
+//!   S seed              a short soup of types / expressions / words in one position of a valid program
+//!   F path              a file of /verif (corpus)
 //!   X hex               the entry file given byte for byte
 //! Output: OK n | ERR <first line> | PANIC <file>: <message> ; the supervisor adds ABORT <status> and TIMEOUT.
 use crate::common::*;
@@ -108,6 +110,67 @@ fn mutate(text: &str, seed: u64) -> String {
     toks.concat()
 }
 
+/// a short token soup in one position of an otherwise valid program
+fn skeleton(seed: u64) -> String {
+    let mut rng = Rng::new(seed);
+    const TYPES: &[&str] = &["int", "uint", "float", "float4", "bool", "half", "double", "float3x3", "float4x4", "uint2", "int3", "S", "E", "T2", "void", "Texture2D<float4>", "RWTexture2D<float>",
+        "StructuredBuffer<S>", "RWStructuredBuffer<uint>", "ByteAddressBuffer", "BufferAddress", "SamplerState", "ConstantBuffer<S>", "RayDesc", "RayQuery<0>", "RaytracingAccelerationStructure",
+        "vector<float, 3>", "matrix<float, 2, 2>", "float1", "float1x1", "float1x4", "min16float", "int64_t", "uint64_t", "float16_t", "string", "Texture2D", "Buffer<float4>", "TextureCube<float4>",
+        "Texture2DArray<uint4>", "RWByteAddressBuffer", "SamplerComparisonState", "Texture3D<float4>", "RWBuffer<uint>", "const float", "static float", "unorm float4", "snorm float", "row_major float4x4",
+        "precise float", "volatile int", "groupshared float", "extern float", "inline float", "uniform float", "in float", "out float", "inout float", "nointerpolation float", "point float", "triangle S",
+        "vertices S", "indices uint3", "primitives S", "payload S"];
+    const EXPRS: &[&str] = &["0", "1", "-1", "1u", "1.0", "1.0f", "1.0h", "1.0L", "true", "x", "y", "s", "s.m", "s.v", "s.v.x", "s.v.xyzw", "a", "a[0]", "a[1]", "a[x]", "t", "t.Load(int3(0, 0, 0))", "t[uint2(0, 0)]",
+        "buf", "buf.Load(0)", "buf.Load<S>(0)", "buf.Load<float4>(4)", "sb[0]", "sb[0].m", "f(1)", "f(x)", "g()", "E::A", "A", "(int)E::A", "(E)1", "(S)0", "(float4)0", "(float3x3)1", "float2(1, 2)", "float4(1, 2, 3, 4)",
+        "float3(1, 2)", "int2(1.5, 2)", "x + y", "x * 2.5", "x / 0", "x % 0", "1 / 0", "1 % 0", "1.0 / 0", "x << 33", "1 << 32", "1 << -1", "-2147483648", "2147483648", "4294967295", "4294967296", "0x7fffffff + 1",
+        "0u - 1u", "-(-2147483647 - 1)", "x ? y : 1", "x ? s : s", "x, y", "x = y", "x += 1", "x++", "--x", "!x", "~x", "-x", "+x", "&x", "*x", "sizeof(int)", "sizeof(S)", "sizeof(x)", "sizeof(T2)", "abs(x)", "abs(s)",
+        "min(x, 1.0)", "max(float2(1, 2), 3)", "mul(m, v)", "mul(v, m)", "mul(m, m)", "dot(v, v)", "cross(v.xyz, v.xyz)", "length(v)", "normalize(v)", "lerp(v, v, 0.5)", "clamp(x, 0, 1)", "saturate(v)", "asuint(1.0)",
+        "asfloat(x)", "f16tof32(x)", "f32tof16(1.0)", "countbits(x)", "firstbithigh(x)", "WaveActiveSum(x)", "WaveGetLaneIndex()", "isnan(1.0)", "select(true, 1, 2)", "and(true, false)", "v.xyzw.wzyx.xy", "v.rgba", "v.xr",
+        "v.xxxxx", "m[0]", "m[0][0]", "m._m00", "m._11_22", "m[4]", "v[5]", "a[2]", "a[-1]", "s.nope", "nope", "nope()", "x.y", "1.x", "1.0.x", "x()", "t.Nope()", "t.Sample(ss, float2(0, 0))", "t.SampleLevel(ss, float2(0, 0), 0)",
+        "t.GetDimensions(x, y)", "rw[uint2(0, 0)] = 1", "rwb.Store(0, 1u)", "rwb.InterlockedAdd(0, 1u, ux)", "rwb.Load4(0)", "GroupMemoryBarrierWithGroupSync()", "this", "this.m", "S::m", "::x", "N::k", "N::N2::k", "N::nope",
+        "pick<float>(1, 2)", "pick(1, 2.0)", "pick<S>(s, s)", "pick<>(1, 2)", "pick<int, int>(1, 2)", "Box<float>", "(Box<float>)0", "TraceRayInline", "q.Proceed()", "q.TraceRayInline(as, 0, 0xff, rd)", "rd.Origin", "\"str\"", "{ 1, 2 }", "{ }"];
+    let soup = |rng: &mut Rng, k: u64| -> String { (0..k).map(|_| match rng.below(3) { 0 => *rng.pick(TYPES), 1 => *rng.pick(EXPRS), _ => *rng.pick(WORDS) }).collect::<Vec<_>>().join(" ") };
+    let ty = *rng.pick(TYPES);
+    let ty2 = *rng.pick(TYPES);
+    let e = *rng.pick(EXPRS);
+    let e2 = *rng.pick(EXPRS);
+    let op = *rng.pick(&["+", "-", "*", "/", "%", "<<", ">>", "&", "|", "^", "&&", "||", "<", ">", "<=", ">=", "==", "!=", "=", "+=", "-=", "*=", "/=", "%=", "<<=", ">>=", "&=", "|=", "^=", ","]);
+    let un = *rng.pick(&["-", "+", "!", "~", "++", "--", ""]);
+    let k = rng.range(1, 6);
+    let z = soup(&mut rng, k);
+    let prelude = "struct S { int m; float4 v; int get() { return m; } };\nenum E { A, B = 5 };\ntypedef float2 T2;\nnamespace N { static const int k = 3; namespace N2 { static const float k = 1.5; } int h(int q) { return q; } }\n\
+template<typename T> T pick(T p, T q) { return p; }\nint f(int p) { return p; }\nfloat f(float p) { return p; }\nvoid g() {}\nTexture2D<float4> t;\nRWTexture2D<float4> rw;\nByteAddressBuffer buf;\nRWByteAddressBuffer rwb;\n\
+StructuredBuffer<S> sb;\nSamplerState ss;\ncbuffer CB { float4x4 m; float4 v; uint ux; }\nstatic const int a[2] = { 1, 2 };\n";
+    let body = match rng.below(26) {
+        0 => format!("void h() {{ int x = 1; int y = 2; S s; {} r = {}; }}", ty, e),
+        1 => format!("void h() {{ int x = 1; int y = 2; S s; {} {} ({}); }}", e, op, e2),
+        2 => format!("void h() {{ int x = 1; int y = 2; S s; {}({}); }}", un, e),
+        3 => format!("void h() {{ int x = 1; int y = 2; S s; {}; }}", z),
+        4 => format!("{} gv;", ty),
+        5 => format!("{} gv = {};", ty, e),
+        6 => format!("static const {} gv = {};", ty, e),
+        7 => format!("{} gv[{}];", ty, e),
+        8 => format!("struct Q {{ {} m0; {} m1 : {}; }};", ty, ty2, z),
+        9 => format!("struct Q {{ {}; }};", z),
+        10 => format!("{} h({} p0, {} p1 = {}) {{ return {}; }}", ty, ty2, ty, e, e2),
+        11 => format!("void h({}) {{ }}", z),
+        12 => format!("[{}] void h() {{ }}", z),
+        13 => format!("[numthreads({}, {}, 1)] void CS() {{ }}\nPipeline P {{ ComputeShader = CS; }}", e, e2),
+        14 => format!("[numthreads(1, 1, 1)] void CS() {{ }}\nPipeline P {{ ComputeShader = CS; {} }}", z),
+        15 => format!("[numthreads(1, 1, 1)] void CS({} p : {}) {{ }}\nPipeline P {{ ComputeShader = CS; }}", ty, *rng.pick(&["SV_DispatchThreadID", "SV_GroupID", "SV_GroupIndex", "SV_Position", "TEXCOORD0", "SV_VertexID", "nope", "SV_Target0", "SV_Depth"])),
+        16 => format!("{} VS({} p : {}) : {} {{ return ({})0; }}\nfloat4 PS() : SV_Target0 {{ return 0; }}\nPipeline P {{ VertexShader = VS; PixelShader = PS; {} }}", ty, ty2, *rng.pick(&["SV_VertexID", "POSITION", "TEXCOORD0"]), *rng.pick(&["SV_Position", "TEXCOORD0", "SV_Target0"]), ty, z),
+        17 => format!("cbuffer C2 {{ {} c0; {} c1 : {}; }}", ty, ty2, z),
+        18 => format!("cbuffer C2 : register({}) {{ float c0; }}\n{} r0 : register({});", z, ty, soup(&mut rng, 2)),
+        19 => format!("enum E2 {{ K0 = {}, K1, K2 = {} }};", e, e2),
+        20 => format!("typedef {} TT; TT gv2; void h() {{ TT l = {}; }}", ty, e),
+        21 => format!("template<{}> {} h2({} p) {{ return p; }} void h() {{ h2<{}>({}); }}", *rng.pick(&["typename U", "int N", "typename U, int N", "typename", "uint N = 2", "typename U = float"]), ty, ty2, *rng.pick(TYPES), e),
+        22 => format!("template<typename U> struct B2 {{ U v; }}; void h() {{ B2<{}> b; b.v = {}; }}", ty, e),
+        23 => format!("void h() {{ int x = 1; S s; {} ({}) {{ {}; }} }}", *rng.pick(&["if", "while", "switch", "for (;;) if"]), e, e2),
+        24 => format!("void h() {{ int x = 1; for ({}; {}; {}) {{ }} switch (x) {{ case {}: break; default: {}; }} }}", z, e, e2, e, e2),
+        _ => format!("[[{}]] {} r1;\n{} r2 = StaticSampler {{ {} }};", z, ty, ty2, soup(&mut rng, 3)),
+    };
+    format!("{}{}\n", prelude, body)
+}
+
 fn nest(kind: &str, n: usize) -> Option<Input> {
     let r = |s: &str| s.repeat(n);
     let text = match kind {
@@ -206,6 +269,11 @@ pub fn input_of(w: &[&str]) -> Option<Input> {
             Some(Input { entry: if root.is_some() { entry } else { "main.rssl".into() }, text, root: root.map(|r| format!("{}/{}", repo(), r)), extra: vec![], defines: true })
         }
         ("D", 3) => nest(w[1], w[2].parse().ok()?),
+        ("S", 2) => plain(skeleton(w[1].parse().ok()?)),
+        ("F", 2) => {
+            let root = std::env::var("RSSL_VERIF").unwrap_or("/verif".into());
+            plain(std::fs::read_to_string(format!("{}/{}", root, w[1])).ok()?)
+        }
         ("X", 2) => {
             let h = w[1];
             let bytes: Option<Vec<u8>> = (0..h.len() / 2).map(|i| u8::from_str_radix(&h[2 * i..2 * i + 2], 16).ok()).collect();
@@ -274,6 +342,7 @@ pub fn gen_cases(seed: u64, n: usize, thorough: bool) -> Vec<String> {
         out.push(format!("{} P {} {} 0", cfg(&mut rng), rng.below(1 << 40), rng.range(2, 20)));
         for _ in 0..3 { out.push(format!("{} P {} {} {}", cfg(&mut rng), rng.below(1 << 40), rng.range(2, 14), 1 + rng.below(1 << 40))); }
         for _ in 0..3 { out.push(format!("{} M {} {}", cfg(&mut rng), rng.below(inputs as u64), 1 + rng.below(1 << 40))); }
+        for _ in 0..12 { out.push(format!("{} S {}", cfg(&mut rng), rng.below(1 << 40))); }
     }
     out
 }
